@@ -1,6 +1,7 @@
 """Fault-injecting HTTP/1.1 server for C20.  The requested path selects the behaviour:
 
   /ok                 200, Content-Length, complete body
+  /ok2                200, Content-Length, a second (shorter) complete body
   /chunked            200, chunked transfer encoding, complete body
   /cl_cut/<k>         200, Content-Length of the full body, connection closed after k body bytes
   /chunk_cut/<k>      200, chunked, connection closed after k body bytes (no terminating chunk)
@@ -18,8 +19,9 @@ import time
 
 
 class FaultServer:
-    def __init__(self, body):
+    def __init__(self, body, body2=None):
         self.body = body
+        self.body2 = body2 if body2 is not None else body      # served by /ok2 (a second, shorter complete body)
         self.sock = socket.socket(socket.AF_INET, socket.SOCK_STREAM)
         self.sock.setsockopt(socket.SOL_SOCKET, socket.SO_REUSEADDR, 1)
         self.sock.bind(("127.0.0.1", 0))
@@ -83,6 +85,9 @@ class FaultServer:
                 return out
             if kind == "ok":
                 conn.sendall(hdr_cl + body)
+            elif kind == "ok2":
+                b2 = self.body2
+                conn.sendall(b"HTTP/1.1 200 OK\r\nContent-Type: application/json\r\nContent-Length: %d\r\nConnection: close\r\n\r\n" % len(b2) + b2)
             elif kind == "chunked":
                 conn.sendall(hdr_ch + chunks(body) + b"0\r\n\r\n")
             elif kind == "cl_cut":
